@@ -459,7 +459,7 @@ impl Prop for C07 {
 
     fn plan(&self, tier: Tier) -> Plan {
         let mut p = Plan::new(match tier {
-            Tier::Quick => 120,
+            Tier::Quick => 200,
             Tier::Thorough => 1500,
         });
         p.workers = 3;
